@@ -13,7 +13,7 @@
    TrieBuf per path, no I/O errors, threads interleave at the named points.  The
    byte encoding is abstract here (C11/C12 own it). *)
 From Coq Require Import NArith List Bool.
-From LC Require Import Base.Lib Model.Durability Proofs.DurabilityProofs.
+From LC Require Import Base.Lib Gen.Durability_gen Model.Durability Proofs.DurabilityProofs.
 Import ListNotations.
 Open Scope N_scope.
 
@@ -37,6 +37,16 @@ Theorem C10_path_written_only_by_rename : forall v d0 sched c,
             fs_path (st_fs s') = Some (mkFile (w_snap w) n_chunks true).
 Proof. exact path_written_only_by_rename. Qed.
 Print Assumptions C10_path_written_only_by_rename.
+
+(* T1 - the writer's program is the code's: TrieBuilder::build, re-read from
+   src/dictionary/trie.rs by tablegen on every run, creates a sibling temp file, writes,
+   flushes, syncs and only then renames it over the path - the order Model/Durability.v's
+   wr_step implements.  (Whether sync_data precedes the rename cannot be exhibited by
+   killing a process; this obligation is what notices its removal or a reordering.) *)
+Theorem C10_build_call_order :
+  build_calls = [0; 1; 2; 3; 4] /\ build_calls = writer_program /\ build_tmp_distinct = true.
+Proof. exact (conj (proj1 build_call_order) build_call_order). Qed.
+Print Assumptions C10_build_call_order.
 
 (* crash at any point of any schedule: the path still decodes, to exactly what it
    decoded to before the crash, and while a writer is in flight that is either what
@@ -77,6 +87,21 @@ Theorem C10_only_changes_change_contents : forall v d0 sched c,
   forall k, contents (st_mem (step v c s)) k = contents (st_mem s) k.
 Proof. exact only_changes_change_contents. Qed.
 Print Assumptions C10_only_changes_change_contents.
+
+(* no accepted change is ever forgotten (either drop variant, any schedule): the
+   dictionary's current contents are on disk, or are the snapshot of the writer in
+   flight, or the dirty flag is set - so the next flush (the editor flushes after
+   every key that changed the dictionary) or drop will write them. *)
+Theorem C10_nothing_forgotten : forall v d0 sched,
+  let s := run v sched (init d0) in
+  st_pc s <> Crashed ->
+  m_dirty (st_mem s) = true \/
+  match m_handle (st_mem s) with
+  | None => exists d, disk s = Some d /\ forall k, get k d = contents (st_mem s) k
+  | Some w => forall k, get k (w_snap w) = contents (st_mem s) k
+  end.
+Proof. exact nothing_forgotten. Qed.
+Print Assumptions C10_nothing_forgotten.
 
 (* durable_after_close (drop = join; sync; flush; join - the tree after the fix):
    for every history sched1, every continuation sched2 after `close` was called
